@@ -48,8 +48,9 @@ def rule_flat_map_dispatch(repo: Repo, rep: Report) -> None:
     ok = False
     if proj is not None:
         src_ = " ".join(u(n_) for n_ in proj.direct_nodes() if isinstance(n_, ast.IfExp))
-        a_, b_ = proj.params[0], proj.params[1]
-        ok = f"mapper({a_}) if mapper" in src_ and f"mapper_indexed({a_}, {b_}) if mapper_indexed" in src_
+        if len(proj.params) >= 2:
+            a_, b_ = proj.params[0], proj.params[1]
+            ok = f"mapper({a_}) if mapper" in src_ and f"mapper_indexed({a_}, {b_}) if mapper_indexed" in src_
     rep.ob("J3-delegations", fi, "projection: mapper(x) if mapper else mapper_indexed(x, i) if mapper_indexed", ok,
            "the projection does not call the plain mapper with the element and the indexed mapper with (element, index)")
 
